@@ -220,23 +220,33 @@ def make_obj_class(versions=False):
             return self._exec(cid, 0)
 
         @replicated
+        def opx(self, cid, *args, **kwargs):
+            # arguments of any shape: their digest becomes part of the replicated state
+            import zlib as _z
+            dig = _z.crc32(repr((args, sorted(kwargs.items()))).encode()) % 100000 + 10
+            return self._exec(cid, dig)
+
+        @replicated
         def boom(self, cid):
             self._sim.cluster.rec.step_obs.append({'k': 'raise', 'n': self._sim.id, 'cid': cid,
                                                    'pos': self.raftLastApplied + 1})
             raise ValueError('boom')
 
-        if versions:
+        if versions is not False and versions is not None:
+            # versions = highest code version this node's class provides (0, 1 or 2)
             @replicated(ver=0)
             def vop(self, cid):
                 return self._exec(cid, 0)
 
-            @replicated(ver=1)
-            def vop(self, cid):
-                return self._exec(cid, 1)
+            if versions >= 1:
+                @replicated(ver=1)
+                def vop(self, cid):
+                    return self._exec(cid, 1)
 
-            @replicated(ver=2)
-            def vop(self, cid):
-                return self._exec(cid, 2)
+            if versions >= 2:
+                @replicated(ver=2)
+                def vop(self, cid):
+                    return self._exec(cid, 2)
 
     return Obj
 
@@ -349,8 +359,14 @@ class Cluster(object):
             others = [m for m in members if m != nid]
             for m in others:
                 tr.members.add(m)
-            cls = obj_class(bool(self.cfg.get('versions')))
-            sn.obj = cls(Node(nid) if voter else None, [Node(m) for m in others], self._conf(nid), tr, sn)
+            vers = False
+            if self.cfg.get('versions'):
+                vers = int(self.cfg.get('codever', {}).get(nid, 2))
+            sn.maxver = vers if vers is not False else 0
+            cls = obj_class(vers)
+            mk = self.cfg.get('consumers')
+            sn.obj = cls(Node(nid) if voter else None, [Node(m) for m in others], self._conf(nid), tr, sn,
+                         consumers=(mk() if mk else None))
             sn.tr = tr
             sn.alive = True
         finally:
@@ -600,6 +616,8 @@ class Cluster(object):
                     o.op(cid, callback=cb)
             elif kind == 'boom':
                 o.boom(cid, callback=cb)
+            elif kind == 'opx':
+                o.opx(cid, *spec.get('args', []), callback=cb, **spec.get('kwargs', {}))
             elif kind == 'vop':
                 o.vop(cid, callback=cb)
             elif kind == 'add':
@@ -607,7 +625,13 @@ class Cluster(object):
             elif kind == 'rem':
                 o.removeNodeFromCluster(Node(spec['x']), callback=cb)
             elif kind == 'ver':
-                o.setCodeVersion(spec['v'], callback=cb)
+                try:
+                    o.setCodeVersion(spec['v'], callback=cb)
+                except Exception as e:
+                    if 'wrong version' not in str(e):
+                        raise
+                    # the documented rejection of an unsupported / lower version at the API
+                    self.rec.step_obs.append({'k': 'rejected', 'cid': cid, 'v': spec['v']})
             else:
                 raise ValueError(kind)
         self._enter(node, call, 'submit')
@@ -617,8 +641,8 @@ class Cluster(object):
         fid = o._methodToID[o._getFuncName('op')]
         for n in range(0, size + 1):
             pad = b'x' * n
-            if len(sopickle.dumps((fid, (cid, pad)))) + 1 == size:
-                return pad
+            if len(sopickle.dumps((fid, (cid, pad)))) + 1 >= size:
+                return pad          # exact where the pickle format allows it, else the next realisable size
         raise ValueError('cannot realise command size %d for %s' % (size, cid))
 
     # ------------------------------------------------------------------ projection
@@ -771,9 +795,11 @@ class Cluster(object):
             for k, v in g('currentVersionFuncNames').items():
                 if isinstance(k, str):
                     fn[k] = v
-            st['names'] = fn.get('vop', NIL)
+            nm_ = fn.get('vop', None)
+            st['names'] = int(nm_.rsplit('_v', 1)[1]) if nm_ else 0
         except Exception:
-            st['names'] = NIL
+            st['names'] = 0
+        st['codeVer'] = int(sn.maxver) if self.cfg.get('versions') else 2
         return st
 
     def project_disk(self, sn):
